@@ -358,6 +358,11 @@ def node_at(t, path):
     return t
 
 
+def real_pipeline(f):
+    with pbx.real_moments():
+        return f()
+
+
 def extras(chk, steps):
     """public operations outside the modelled grammar: checked by the well-formedness oracle only (a raise is an acceptable outcome)"""
     import pyuncertainnumber.pba as pba
@@ -366,8 +371,13 @@ def extras(chk, steps):
     rng = chk.rng
     mk = lambda X: Staircase(np.array(X[0]), np.array(X[1]))
     for rep in range(2 if chk.tier == "quick" else 12):
-        for kind in ("pos", "neg", "straddle", "interval", "precise", "steps"):
-            X = pbx.gen_bounds(rng, steps, kind, dy=False)
+        for kind in ("pos", "neg", "straddle", "interval", "precise", "steps", "zero_lo", "zero_hi", "precise_zero_lo", "precise_zero_hi"):
+            if kind.startswith("precise_"):     # a precise distribution whose support starts / ends at zero exactly (as uniform(0, b) does)
+                X = pbx.gen_bounds(rng, steps, "precise", dy=False)
+                sh = X[0][0] if kind.endswith("lo") else X[1][-1]
+                X = ([v - sh for v in X[0]], [v - sh for v in X[1]])
+            else:
+                X = pbx.gen_bounds(rng, steps, kind, dy=False)
             Yp = pbx.gen_bounds(rng, steps, "pos", dy=False)
             x, yp = mk(X), mk(([0.2 + v / 4 for v in Yp[0]], [0.3 + v / 4 for v in Yp[1]]))
             Xp = pbx.gen_bounds(rng, steps, "pos", dy=False)
@@ -379,6 +389,9 @@ def extras(chk, steps):
                    ("outer_approximate", lambda: pba.stacking(x.outer_discretisation(rng.choice([10, 40]))))]
             for d in "fpoi":
                 ops.append((f"pow-{d}", (lambda d=d: xp.pow(yp, dependency=d))))
+            # powers with a real exponent (positive, zero, negative, fractional) on every kind of support, zero at an endpoint included
+            for c in (2, 3, 0.5, 0, -1, -2, -0.5):
+                ops.append((f"pow-number({c})", (lambda c=c: real_pipeline(lambda: x ** c) if "zero" in kind else x ** c)))
             # the aggregation functions with a p-box listed first, and a mixture
             import pyuncertainnumber as pun
             ops += [("envelope()", lambda: pun.envelope(x, yp)), ("envelope()-3", lambda: pun.envelope(xp, x, yp)), ("imposition()", lambda: pun.imposition(xp, mk(([v - 0.25 for v in Xp[0]], [1.0 + v for v in Xp[1]])))),
